@@ -6,8 +6,20 @@ Modelled after: `UnitDatabase.CheckCategoryUnit` (memo semantics), the simple br
 `Quantity.__init__` (category lookup, unit check, legacy retry), `ObtainQuantity(unit, category)`
 with a string unit and a string category, `UnitDatabase.Convert`, the simple-operand paths of
 `_DoOperationWithSameQuantity` (Sum/Subtract) and `Scalar._GetValuesToCompare` (order).
+
+Second part (the extended session `XState`/`xstep`): `ObtainQuantity(unit)` without category
+(`GetDefaultCategory`, legacy retry, the alias entry `(None, unit, None)` of `quantities_cache`),
+`ObtainQuantity(OrderedDict)` / the list form / `_ObtainReduced` (unpickling) and
+`Quantity.CreateDerived` (derived entries of `quantities_cache`, validation on a miss), the derived
+branch of `Quantity.__init__` (category, quantity-type and unit strings), the ordering operators on
+arbitrary quantities (`Quantity.ConvertScalarValue` with its same-unit-string shortcut,
+`Quantity.Convert` → `UnitDatabase.Convert` → `_ConvertWithExp` for derived operands), and the
+registrations `AddCategory(category, quantity_type, override=…)` / `AddUnit(…, "%f / k", "%f * k",
+default_category)` with `_ForgetMemoizedResults` (both memo tables emptied by every successful
+registration, untouched by a rejected one).
 -/
 import Barril.Model.Conv
+import Barril.Model.StrRender
 
 namespace Barril.Fail
 open Barril
@@ -170,5 +182,305 @@ def run (db : Db) (s : FState) : List FOp → FState
 def outputs (db : Db) (s : FState) : List FOp → List (Except ErrKind FOut)
   | [] => []
   | op :: ops => (step db s op).2 :: outputs db (step db s op).1 ops
+
+/-! ## second part: derived quantities, default categories, registrations -/
+
+/-- one item of `_category_to_unit_and_exps`: `category ↦ [unit, exponent]` -/
+structure Ent where
+  cat : Sym
+  unit : Sym
+  exp : Int
+deriving DecidableEq, Repr
+
+/-- a `Quantity`, simple or derived, with the strings its constructor computes -/
+structure Quant where
+  entries : List Ent
+  derived : Bool
+  /-- `_category` -/
+  category : Sym
+  /-- `_quantity_type` -/
+  qtype : Sym
+  /-- `_unit` -/
+  unit : Sym
+deriving DecidableEq, Repr
+
+/-- a simple quantity seen as a `Quant` -/
+def Quant.ofSimple (db : Db) (q : Simple) : Quant :=
+  ⟨[⟨q.cat, q.unit, 1⟩], false, q.cat, qtypeOf db q, q.unit⟩
+
+/-- `GetCategoryQuantityType`: `InvalidQuantityTypeError` for a category that is not registered -/
+def catQType (db : Db) (c : Sym) : Except ErrKind Sym :=
+  match db.catByName c with
+  | some ci => .ok ci.qtype
+  | none => .error .units
+
+/-- the loop of the derived branch of `Quantity.__init__` over the composing categories -/
+def typePairs (db : Db) : List Ent → Except ErrKind (List (Str.Str × Int))
+  | [] => .ok []
+  | e :: rest =>
+    match catQType db e.cat with
+    | .error err => .error err
+    | .ok qt =>
+      match typePairs db rest with
+      | .error err => .error err
+      | .ok ps => .ok ((Sym.bytes qt, e.exp) :: ps)
+
+def catPairs (es : List Ent) : List (Str.Str × Int) := es.map (fun e => (Sym.bytes e.cat, e.exp))
+def unitPairs (es : List Ent) : List (Str.Str × Int) := es.map (fun e => (Sym.bytes e.unit, e.exp))
+
+/-- the three strings of a derived quantity: `_MakeStr` of the categories, `_MakeStr` of the joined
+quantity types, `_CreateUnitsWithJoinedExponentsString` -/
+def derivedOf (es : List Ent) (typePs : List (Str.Str × Int)) : Quant :=
+  ⟨es, true, Sym.ofBytes (Str.makeStr (catPairs es)), Sym.ofBytes (Str.makeStr (Str.joinExps typePs)),
+   Sym.ofBytes (Str.renderUnit (Str.joinExps (unitPairs es)))⟩
+
+/-- `Quantity(OrderedDict, None)` -/
+def newDerived (db : Db) (es : List Ent) : Except ErrKind Quant :=
+  match typePairs db es with
+  | .error e => .error e
+  | .ok ps => .ok (derivedOf es ps)
+
+/-- the validation loop of `Quantity._CreateDerived`, which `ObtainQuantity` also runs on a miss of a
+derived key: `CheckQuantityTypeUnit(GetCategoryQuantityType(category), unit)` for every entry (no
+legacy fixing; the verdict table is not involved) -/
+def validateEntries (db : Db) : List Ent → Except ErrKind Unit
+  | [] => .ok ()
+  | e :: rest =>
+    match catQType db e.cat with
+    | .error err => .error err
+    | .ok qt =>
+      match db.checkQuantityTypeUnit qt e.unit with
+      | .error err => .error err
+      | .ok _ => validateEntries db rest
+
+/-- a miss of a derived key: validate, then build -/
+def newDerivedChecked (db : Db) (es : List Ent) : Except ErrKind Quant :=
+  match validateEntries db es with
+  | .error e => .error e
+  | .ok _ => newDerived db es
+
+/-- "Although passed as composing, it's a simple case": one entry with exponent 1 -/
+def simpleCase : List Ent → Option (Sym × Sym)
+  | [e] => if e.exp = 1 then some (e.cat, e.unit) else none
+  | _ => none
+
+/-- the session with a registry that can change: the database, the verdict table and the simple
+entries of `quantities_cache` (`s`), the alias entries `(None, unit, None)` and the entries keyed by a
+composing map -/
+structure XState where
+  db : Db
+  s : FState
+  alias : List (Sym × Simple)
+  dcache : List (List Ent × Quant)
+
+/-- a freshly built database object: both memo tables empty -/
+def XState.fresh (db : Db) : XState := ⟨db, FState.empty, [], []⟩
+
+def lookupAlias (m : List (Sym × Simple)) (u : Sym) : Option Simple :=
+  (m.find? (·.1 == u)).map (·.2)
+
+def lookupD (m : List (List Ent × Quant)) (k : List Ent) : Option Quant :=
+  (m.find? (·.1 == k)).map (·.2)
+
+/-- `ObtainQuantity(OrderedDict)` — also the list form and `_ObtainReduced` (unpickling): the simple
+case goes the way of `ObtainQuantity(unit, category)`; otherwise the key is the tuple of the entries
+in the order given, a hit is returned as it is, a miss validates every entry, builds the quantity
+and stores it -/
+def obtainDict (st : XState) (es : List Ent) : XState × Except ErrKind Quant :=
+  match simpleCase es with
+  | some (c, u) =>
+    match obtain st.db st.s c u with
+    | (s1, .ok q) => ({ st with s := s1 }, .ok (Quant.ofSimple st.db q))
+    | (s1, .error e) => ({ st with s := s1 }, .error e)
+  | none =>
+    match lookupD st.dcache es with
+    | some q => (st, .ok q)
+    | none =>
+      match newDerivedChecked st.db es with
+      | .ok q => ({ st with dcache := (es, q) :: st.dcache }, .ok q)
+      | .error e => (st, .error e)
+
+/-- `Quantity.CreateDerived(category_to_unit_and_exps)`: validates before it looks at the cache -/
+def createDerived (st : XState) (es : List Ent) : XState × Except ErrKind Quant :=
+  match validateEntries st.db es with
+  | .error e => (st, .error e)
+  | .ok _ => obtainDict st es
+
+/-- the tail of `GetDefaultCategory` once the `UnitInfo` is found; `0` stands for `None` -/
+def defaultCategoryOf (db : Db) (w : UnitRow) : Sym :=
+  if w.defaultCat != 0 then w.defaultCat
+  else if (db.catByName w.qtype).isSome then w.qtype else 0
+
+/-- `GetDefaultCategory(unit)`: a legacy spelling whose current spelling is not registered raises
+`KeyError` -/
+def getDefaultCategory (db : Db) (u : Sym) : Except ErrKind Sym :=
+  match db.unitBySym u with
+  | some w => .ok (defaultCategoryOf db w)
+  | none =>
+    if !isLegacy db.legacy u then .ok 0 else
+    match db.unitBySym (fixLegacy db.legacy u) with
+    | some w => .ok (defaultCategoryOf db w)
+    | none => .error .key
+
+/-- the category and unit `ObtainQuantity(unit, None)` resolves to (`0` = no category) -/
+def resolveDefault (db : Db) (u : Sym) : Except ErrKind (Sym × Sym) :=
+  match getDefaultCategory db u with
+  | .error e => .error e
+  | .ok c =>
+    if c != 0 then .ok (c, u)
+    else if isLegacy db.legacy u then
+      match getDefaultCategory db (fixLegacy db.legacy u) with
+      | .error e => .error e
+      | .ok c' => .ok (c', fixLegacy db.legacy u)
+    else .error .units
+
+/-- `ObtainQuantity(unit)` (= `Scalar(value, unit)`, `Scalar((value, unit))`): the key
+`(None, unit, None)` first; then the category is resolved and the key `(category, unit', None)` is
+tried; a miss builds `Quantity(category, unit')` (a `TypeError` when there is no category) and stores
+it under BOTH keys -/
+def obtainU (st : XState) (u : Sym) : XState × Except ErrKind Simple :=
+  match lookupAlias st.alias u with
+  | some q => (st, .ok q)
+  | none =>
+    match resolveDefault st.db u with
+    | .error e => (st, .error e)
+    | .ok (c, u') =>
+      if c = 0 then
+        match lookupAlias st.alias u' with
+        | some q => (st, .ok q)
+        | none => (st, .error .type)
+      else
+        match lookupCache st.s.cache (c, u') with
+        | some q => (st, .ok q)
+        | none =>
+          match newQuantity st.db st.s c u' with
+          | (s1, .ok q) =>
+            ({ st with s := { s1 with cache := ((c, u'), q) :: s1.cache }, alias := (u, q) :: st.alias }, .ok q)
+          | (s1, .error e) => ({ st with s := s1 }, .error e)
+
+def cmpRat (op : CmpOp) (x y : Rat) : Bool :=
+  match op with | .lt => x < y | .le => x ≤ y | .gt => x > y | .ge => x ≥ y
+
+/-- `Quantity.ConvertScalarValue(value, to_unit)`: the same unit STRING returns the value as it is;
+a simple quantity converts through `GetInfo(quantity_type, to_unit)` and its stored to-base formula;
+a derived one through `Quantity.Convert` → `UnitDatabase.Convert(categories, ((unit, exp), …),
+to_unit, value)` → `_ConvertWithExp`: no composing unit: the value; more than one: `ComposedUnitError`;
+one with an exponent other than 1 (the target counts as exponent 1): `ValueError`; else the plain
+conversion under the category -/
+def convertScalarValue (db : Db) (b : Quant) (toU : Sym) (y : Rat) : Except ErrKind Rat :=
+  if b.unit == toU then .ok y
+  else if !b.derived then
+    match b.entries with
+    | [e] =>
+      match db.getInfo b.qtype toU true with
+      | .error err => .error err
+      | .ok other =>
+        match db.getInfo b.qtype e.unit true with
+        | .error err => .error err
+        | .ok this => convRows this other y
+    | _ => .error .other
+  else
+    match b.entries with
+    | [] => .ok y
+    | [e] => if e.exp != 1 then .error .value else db.convert e.cat e.unit toU y
+    | _ => .error .units
+
+/-- order operators of `Scalar` (`_GetValuesToCompare`) on arbitrary quantities: the quantity-type
+STRINGS are compared first, then the right operand is expressed in the left operand's unit string -/
+def orderQ (db : Db) (op : CmpOp) (a b : Quant) (x y : Rat) : Except ErrKind Bool :=
+  if a.qtype != b.qtype then .error .type
+  else
+    match convertScalarValue db b a.unit y with
+    | .error e => .error e
+    | .ok y' => .ok (cmpRat op x y')
+
+/-! ### registrations -/
+
+/-- `categories_to_quantity_types[category] = info`: an existing key keeps its place -/
+def catSet : List CatRow → CatRow → List CatRow
+  | [], n => [n]
+  | c :: cs, n => if c.name == n.name then n :: cs else c :: catSet cs n
+
+/-- `GetBaseUnit(quantity_type)` -/
+def baseUnit (db : Db) (qt : Sym) : Except ErrKind Sym :=
+  match db.unitsOfType qt with
+  | w :: _ => .ok w.sym
+  | [] => .error .units
+
+/-- the registrations of a C05 session -/
+inductive RegOp
+  /-- `AddCategory(c, qt, override=…)`, everything else left to its default -/
+  | addCategory (c qt : Sym) (override : Bool)
+  /-- `AddUnit(qt, name, u, "%f / k", "%f * k", default_category=dc)` (`dc = 0`: none) -/
+  | addUnit (qt name u dc : Sym) (k : Rat)
+deriving Repr
+
+/-- the row `AddUnit` stores for the two formula strings (none of the C05 operations reads the
+annotation fields) -/
+def scaledRow (qt name u dc : Sym) (k : Rat) : UnitRow :=
+  ⟨qt, name, u, true, ⟨0, k, 1, 0⟩, ⟨0, 1, k, 0⟩, true, true, none, none, dc, 0⟩
+
+/-- the registry after a registration, or the error it raises (then nothing has changed).
+`AddCategory`: `UnitsError` for a registered name without `override`; the default unit is the base unit
+of the quantity type (`InvalidQuantityTypeError` when there is none); no valid-unit list, default value
+0, no limits (the caption, which no operation of the session reads, is not modelled).
+`AddUnit`: `RuntimeError` for a symbol that is registered already; the row goes last in its type -/
+def applyReg (db : Db) : RegOp → Except ErrKind Db
+  | .addCategory c qt override =>
+    if !override && (db.catByName c).isSome then .error .units
+    else
+      match baseUnit db qt with
+      | .error e => .error e
+      | .ok base => .ok { db with cats := catSet db.cats ⟨c, qt, none, base, 0, none, none, false, false, 0⟩ }
+  | .addUnit qt name u dc k =>
+    if (db.unitBySym u).isSome then .error .runtime
+    else .ok { db with units := db.units ++ [scaledRow qt name u dc k] }
+
+/-- the operations of the extended session -/
+inductive XOp
+  | plain (op : FOp)
+  /-- `Scalar(v, unit)` / `ObtainQuantity(unit)` -/
+  | createU (u : Sym)
+  /-- `ObtainQuantity(dict)`, the list form, unpickling (`validate = false`); `Quantity.CreateDerived` -/
+  | createDict (validate : Bool) (es : List Ent)
+  /-- ordering of two scalars whose quantities are obtained from their composing maps -/
+  | cmpq (op : CmpOp) (a b : List Ent) (x y : Rat)
+  | reg (r : RegOp)
+deriving Repr
+
+inductive XOut
+  | plain (o : FOut)
+  | quant (q : Quant)
+deriving DecidableEq, Repr
+
+def exMap {α β : Type} (f : α → β) : Except ErrKind α → Except ErrKind β
+  | .ok a => .ok (f a)
+  | .error e => .error e
+
+def xstep (st : XState) : XOp → XState × Except ErrKind XOut
+  | .plain op => ({ st with s := (step st.db st.s op).1 }, exMap XOut.plain (step st.db st.s op).2)
+  | .createU u => ((obtainU st u).1, exMap (fun q => XOut.plain (.quantity q)) (obtainU st u).2)
+  | .createDict validate es =>
+    if validate then ((createDerived st es).1, exMap XOut.quant (createDerived st es).2)
+    else ((obtainDict st es).1, exMap XOut.quant (obtainDict st es).2)
+  | .cmpq op ea eb x y =>
+    match obtainDict st ea with
+    | (st1, .error e) => (st1, .error e)
+    | (st1, .ok a) =>
+      match obtainDict st1 eb with
+      | (st2, .error e) => (st2, .error e)
+      | (st2, .ok b) => (st2, exMap (fun r => XOut.plain (.bool r)) (orderQ st2.db op a b x y))
+  | .reg r =>
+    match applyReg st.db r with
+    | .ok db' => (XState.fresh db', .ok (.plain .unit))
+    | .error e => (st, .error e)
+
+def xrun (st : XState) : List XOp → XState
+  | [] => st
+  | op :: ops => xrun (xstep st op).1 ops
+
+def xoutputs (st : XState) : List XOp → List (Except ErrKind XOut)
+  | [] => []
+  | op :: ops => (xstep st op).2 :: xoutputs (xstep st op).1 ops
 
 end Barril.Fail
